@@ -17,6 +17,22 @@ static bool check_buffer(uint16_t st, const uint8_t *p, size_t n, size_t split, 
     uint16_t a = ufw_crc16_arc(st, blk.p, split);
     uint16_t b = ufw_crc16_arc(a, blk.p + split, n - split);
     if (b != want) { ok = false; if (record) vp::fail("octets:concatenation", "continuing over the second part differs from the whole", ser(st, p, n, split)); }
+    if (n) {
+        // the same call again after the buffer was changed in place (identical arguments): the result follows the content, and
+        // the same buffer one octet further up in memory (odd start address, exact end)
+        size_t k = split < n ? split : n - 1;
+        uint8_t saved = blk.p[k];
+        blk.p[k] = (uint8_t)(saved ^ 0x5a);
+        std::vector<uint8_t> q(p, p + n); q[k] = blk.p[k];
+        uint16_t want2 = ref::crc16_arc(st, q.data(), n), got2 = ufw_crc16_arc(st, blk.p, n);
+        blk.p[k] = saved;
+        if (got2 != want2) { ok = false; if (record) vp::fail("octets:after-in-place-change", vp::fmt("second call with identical arguments after octet %zu was changed in place: %04x, reference %04x", k, got2, want2), ser(st, p, n, split)); }
+        vp::Block odd(n + 1);
+        memcpy(odd.p + 1, p, n);
+        uint16_t got3 = ufw_crc16_arc(st, odd.p + 1, n);
+        if (got3 != want) { ok = false; if (record) vp::fail("octets:odd-address", vp::fmt("buffer of %zu octets at an odd address: %04x, reference %04x", n, got3, want), ser(st, p, n, split)); }
+        if (st == 0 && ufw_buffer_crc16_arc(odd.p + 1, n) != want) { ok = false; if (record) vp::fail("octets:odd-address", "ufw_buffer_crc16_arc at an odd address", ser(st, p, n, split)); }
+    }
     {   // the same calls with the count written as an expression, the way callers write it (header length + payload length)
         size_t h = n / 3, t = n - h;
         if (ufw_crc16_arc(st, blk.p, h + t) != want || (st == 0 && ufw_buffer_crc16_arc(blk.p, h + t) != want)) { ok = false; if (record) vp::fail("octets:count-expression", "call with the count written as a sum differs", ser(st, p, n, split)); }
@@ -29,6 +45,9 @@ static bool check_buffer(uint16_t st, const uint8_t *p, size_t n, size_t split, 
         if (n) memcpy(wb, p, n);
         uint16_t gw = ufw_crc16_arc_u16(st, wb, n / 2);
         if (gw != want) { ok = false; if (record) vp::fail("words:value", vp::fmt("word variant %04x vs octet image %04x", gw, want), ser(st, p, n, split)); }
+        if (n) { uint16_t sv = wb[0]; wb[0] = (uint16_t)(sv ^ 0x0180); std::vector<uint8_t> q(n); memcpy(q.data(), wb, n);
+                 uint16_t w2 = ref::crc16_arc(st, q.data(), n), g2 = ufw_crc16_arc_u16(st, wb, n / 2); wb[0] = sv;
+                 if (g2 != w2) { ok = false; if (record) vp::fail("words:after-in-place-change", "second call with identical arguments after the buffer was changed in place", ser(st, p, n, split)); } }
         { size_t wh = (n / 2) / 3, wt = n / 2 - wh;
           if (ufw_crc16_arc_u16(st, wb, wh + wt) != want || (st == 0 && ufw_buffer_crc16_arc_u16(wb, wh + wt) != want)) { ok = false; if (record) vp::fail("words:count-expression", "word variant called with the count written as a sum differs", ser(st, p, n, split)); } }
         if (st == 0 && ufw_buffer_crc16_arc_u16(wb, n / 2) != want) { ok = false; if (record) vp::fail("words:buffer-variant", "ufw_buffer_crc16_arc_u16", ser(st, p, n, split)); }
@@ -45,12 +64,14 @@ static void run() {
     fast = true;
 #endif
     if (!fast) {
-        vp::stats().rule = "enum: all 2^24 (state, octet) pairs of the update step; known check value; random buffers <= 4 KiB split at every position; buffers of 2^8/2^15/2^16/2^17 (+-1,2) octets and words; word buffers of every length 0..64 from random states; every 4-octet buffer over {state low, state high, 00, ff, low^1} from every state; messages followed by their own checksum and zero padding";
+        vp::stats().rule = "enum: all 2^24 (state, octet) pairs of the update step; known check value; random buffers <= 4 KiB split at every position; buffers of 2^8/2^15/2^16/2^17 (+-1,2) octets and words; word buffers of every length 0..64 from random states; every buffer again after an in-place change (identical arguments) and at an odd start address; every 4-octet buffer over {state low, state high, 00, ff, low^1} from every state; messages followed by their own checksum and zero padding";
         vp::stats().exhaustive = true;
         // (1) all (state, octet) pairs, dealt to shards by state
+        static uint32_t cur_st, cur_o;
+        vp::CaseScope stepscope([] { uint8_t oc = (uint8_t)cur_o; return ser((uint16_t)cur_st, &oc, 1, 0); });
         for (uint32_t st = a.shard; st < 65536; st += a.nshards)
             for (uint32_t o = 0; o < 256; o++) {
-                uint8_t oc = (uint8_t)o;
+                static uint8_t oc; oc = (uint8_t)o; cur_st = st; cur_o = o;   // one object for all iterations: the call reads through the pointer every time
                 uint16_t got = ufw_crc16_arc((uint16_t)st, &oc, 1), want = ref::crc16_arc_octet((uint16_t)st, oc);
                 vp::count();
                 if (st && o) vp::nontrivial(((uint64_t)st << 8) | o);
